@@ -27,6 +27,8 @@ def _num(x):
             return ("n", "nan")
         if math.isinf(x):
             return ("n", "inf" if x > 0 else "-inf")
+        if x == 0 and math.copysign(1.0, x) < 0:
+            return ("n", Fraction(0), "negative zero")
         return ("n", Fraction(x))
     return x
 
